@@ -70,6 +70,7 @@ def add_to(run: core.Run) -> None:
         items = docexp.corpus(docs.L_EDIT, 3, depth=1, modes=(True, False))
         for c in items:
             c['level'] = 'basic' if c['text'].count('\n') >= 3 else 'full'
+    items += docexp.class_cases(1, level='basic')
     items = [dict(c, kind='lfdiff') for c in items]
     run.run_cases(run_case, items, 'load-factor differential through the model API', chunk=1)
     run.bounds['lf_differential'] = {'documents': len(items), 'load_factors': ['default', 2, 3]}
